@@ -1,6 +1,6 @@
 use syntax::parser::TextRange;
 use syntax::syntax_kind::SyntaxKind;
-use syntax::SyntaxNode;
+use syntax::{SyntaxElement, SyntaxNode, SyntaxToken};
 
 use crate::file_system::{FilePosition, FileRange};
 use crate::index::IndexDatabase;
@@ -107,7 +107,7 @@ fn extract_doc_comments(root: SyntaxNode, range: TextRange) -> Option<String> {
     let mut cur_token = parent_node.first_token()?;
     let mut comments = Vec::new();
     loop {
-        cur_token = match cur_token.prev_token() {
+        cur_token = match prev_token(&cur_token) {
             Some(t) => t,
             None => break,
         };
@@ -116,7 +116,7 @@ fn extract_doc_comments(root: SyntaxNode, range: TextRange) -> Option<String> {
             break;
         }
 
-        cur_token = match cur_token.prev_token() {
+        cur_token = match prev_token(&cur_token) {
             Some(t) => t,
             None => break,
         };
@@ -136,6 +136,30 @@ fn extract_doc_comments(root: SyntaxNode, range: TextRange) -> Option<String> {
         None
     } else {
         Some(doc)
+    }
+}
+
+/// The token directly before `token` in the file.
+///
+/// `SyntaxToken::prev_token` gives up when the preceding sibling ends in an empty node, and the
+/// parser leaves empty nodes behind for every missing part (`class Foo` without a body ends in
+/// an empty `Body`), so this walks the tree backwards itself and steps over them.
+fn prev_token(token: &SyntaxToken) -> Option<SyntaxToken> {
+    let mut element = SyntaxElement::from(token.clone());
+    loop {
+        element = match element.prev_sibling_or_token() {
+            Some(mut prev) => {
+                // rightmost leaf (a token or an empty node) of the preceding sibling
+                while let Some(last) = prev.as_node().and_then(|node| node.last_child_or_token()) {
+                    prev = last;
+                }
+                prev
+            }
+            None => element.parent()?.into(),
+        };
+        if let SyntaxElement::Token(token) = element {
+            return Some(token);
+        }
     }
 }
 
